@@ -202,10 +202,33 @@ func newBlockReader(block []byte, headerOff uint32, tableBlockSize uint32, hashS
 		if err != nil {
 			return nil, err
 		}
-		// Have to use io.Copy. zlib stream has a terminator,
-		// which we must consume, so go until EOF.
-		if _, err := io.Copy(out, r); err != nil {
+		// The block inflates to exactly sz bytes, header included.
+		// Do not inflate more than that: a corrupt or hostile
+		// stream can expand to a thousand times its size.
+		want := int64(sz) - int64(headerOff+4)
+		if want < 0 {
+			return nil, fmtError
+		}
+		if _, err := io.CopyN(out, r, want); err != nil {
+			if err == io.EOF {
+				err = fmtError
+			}
 			return nil, err
+		}
+		// The zlib stream has a terminator, which we must consume,
+		// so read until EOF; nothing more may come out.
+		for {
+			var probe [1]byte
+			n, err := r.Read(probe[:])
+			if n > 0 {
+				return nil, fmtError
+			}
+			if err == io.EOF {
+				break
+			}
+			if err != nil {
+				return nil, err
+			}
 		}
 
 		r.Close()
